@@ -765,9 +765,85 @@ inline void randomCase(Ctx& c, long idx)
     }
 }
 
+// deterministic, lean (no per-frame bookkeeping): one endpoint's 5-segment message (counters across the wrap) with 1 150 000
+// well-formed unsegmented frames of two other endpoints between every two of its segments - 4.6 million frames, more than
+// 2^22, pass while the message is in progress. Every foreign frame must yield exactly its one packet; the message must
+// arrive complete with its last segment. (Age- or count-based clean-up of "stale" reassemblies below that horizon shows here.)
+inline void veryLongGap(Ctx& c)
+{
+    const size_t gap = 1150000;
+    Bytes data = uniqueContent(77000, 50, false);
+    std::vector<Bytes> seg;
+    GMsg first;
+    first.ts = 0x1122334455667788ULL;
+    first.idWord = 9;
+    first.flags = 0;
+    first.ptype = 0x48;
+    for (int i = 0; i < 5; ++i)
+    {
+        GMsg m = first;
+        m.flags |= (i == 0 ? wire::SEG_FIRST : (i == 4 ? wire::SEG_LAST : wire::SEG_MID));
+        m.payload.assign(data.begin() + i * 10, data.begin() + (i + 1) * 10);
+        seg.push_back(buildFrame(1, 0x0102, wire::MT_DATA, 3, static_cast<uint16_t>(65533 + i), {m}));
+    }
+    Bytes foreign[2];
+    for (int e = 0; e < 2; ++e)
+    {
+        GMsg m;
+        m.ts = 5;
+        m.idWord = static_cast<uint32_t>(e);
+        m.flags = 0;
+        m.ptype = 0x49;
+        m.payload = uniqueContent(static_cast<uint32_t>(78000 + e), 8, false);
+        foreign[e] = buildFrame(1, static_cast<uint16_t>(0x0102 + e), wire::MT_DATA, static_cast<uint8_t>(4 - e), 0, {m});
+    }
+    ASAM::CMP::Decoder dec;
+    c.note("history=first segment of device 0x0102 stream 3, then 4 x (1150000 unsegmented frames of two other endpoints, next segment)");
+    uint16_t seq[2] = {100, 65000};
+    size_t wrongCounts = 0, delivered = 0;
+    std::shared_ptr<ASAM::CMP::Packet> msg;
+    for (int i = 0; i < 5; ++i)
+    {
+        auto got = dec.decode(seg[static_cast<size_t>(i)].data(), seg[static_cast<size_t>(i)].size());
+        ++c.evaluations;
+        if (i < 4 && !got.empty())
+            c.violation("C05:unexpected-delivery", "segment " + std::to_string(i) + " of 5 delivered a packet", "very long gap history");
+        if (i == 4)
+        {
+            if (got.size() != 1 || !got[0])
+                c.violation("C05:message-not-delivered", "the last of 5 segments, 4.6 million foreign frames after the first one, delivered " + std::to_string(got.size()) + " packets", "very long gap history");
+            else
+                msg = got[0];
+            break;
+        }
+        for (size_t k = 0; k < gap; ++k)
+        {
+            int e = static_cast<int>(k & 1);
+            Bytes& f = foreign[e];
+            wire::set16(f.data() + 6, seq[e]++);
+            auto g = dec.decode(f.data(), f.size());
+            ++c.evaluations;
+            if (g.size() != 1 || !g[0] || g[0]->getPayloadLength() != 8)
+                ++wrongCounts;
+            else
+                ++delivered;
+        }
+    }
+    if (wrongCounts)
+        c.violation("C05:unsegmented-message-not-delivered", std::to_string(wrongCounts) + " of the foreign unsegmented frames did not yield exactly their one packet", "very long gap history");
+    if (msg)
+    {
+        PacketSnap s = snapPacket(*msg);
+        if (s.payload.bytes != data)
+            c.violation("C05:payload-mismatch", "message reassembled across 4.6 million foreign frames: " + std::to_string(s.payload.bytes.size()) + " bytes delivered, 50 sent (or other content)", "very long gap history");
+    }
+    c.count("unsegmented_deliveries", delivered);
+    c.count("histories_with_more_than_2_to_the_22_frames_while_a_message_is_open");
+}
+
 inline long count(Ctx& c)
 {
-    return 36 + 40 + 3 + 3 + 2 + 1 + (c.thorough() ? 3000000 : 40000);
+    return 36 + 40 + 3 + 3 + 2 + 1 + 1 + (c.thorough() ? 3000000 : 40000);
 }
 inline void run(Ctx& c, long idx)
 {
@@ -783,6 +859,8 @@ inline void run(Ctx& c, long idx)
         return longGap(c, idx - 82);
     if (idx < 85)
         return manyEndpoints(c, 3);
+    if (idx < 86)
+        return veryLongGap(c);
     randomCase(c, idx);
 }
 
